@@ -26,8 +26,10 @@ PID = "C12"
 
 STRS = ["b", "a", "dd", "c", "ab"]
 MIXED = ["12", 2, "a", 1.5, "b"]
+INTS = [3, 1, 20, 10, 2]     # keys that become positional when spread
 EXTRA = ["e", "a"]           # strings used by the paths themselves
 
+G = "do def r = []; def g(x) do append(r, x); x end; "
 PATHS = {
     # name: expression over s (set) / m (map) / t (second set)
     "render": "string(s)", "value": "s", "in_list": "[s, 1]",
@@ -77,6 +79,20 @@ PATHS = {
     "grouped": "grouped(list(s))", "pairs": "pairs(list(s))",
     "object_set": "object([[string(x), 1] for x in s])",
     "if_empty": "s is empty", "boolean": "boolean(s)",
+    # the order in which a comprehension visits its source is observable
+    # through effects of the body and through which element fails first
+    "sc_effect": G + "def q = <<g(x) for x in s>>; r end",
+    "lc_effect": G + "def q = [g(x) for x in s]; r end",
+    "mc_effect": G + "def q = <<<g(x) => 1 for x in s>>>; r end",
+    "mc_effect_v": G + "def q = <<<x => g(x) for x in s>>>; r end",
+    "sc_if_effect": G + "def q = <<x for x in s if g(x) != 'a'>>; r end",
+    "sc2_effect": G + "def q = <<[g(x), y] for x in s for y in t>>; r end",
+    "sc2_effect_y": G + "def q = <<[x, g(y)] for x in s for y in t>>; r end",
+    "scpar_effect": G + "def q = <<[g(x), y] for x in s also for y in s>>; r end",
+    "sc_error": "<<int(x) for x in s>>", "lc_error": "[int(x) for x in s]",
+    "mc_error": "<<<int(x) => 1 for x in s>>>",
+    "for_error": "for x in s do int(x) end",
+    "sc_of_set_of_sets": G + "def q = <<g(x) for x in <<s, t, <<'e'>> >> >>; r end",
 }
 MAP_PATHS = {
     "render": "string(m)", "value": "m", "print": "do println(m); NULL end",
@@ -99,6 +115,13 @@ MAP_PATHS = {
     "nested": "string([m, <<m>>])", "error_value": "error m",
     "zip_map": "zip_map(list(set(m)), list(m))",
     "sorted_entries": "sorted([e for e in entries m])",
+    "sc_effect": G + "def q = <<g(k) for k in keys m>>; r end",
+    "sc_effect_default": G + "def q = <<g(k) for k in m>>; r end",
+    "sc_effect_entries": G + "def q = <<g(e) for e in entries m>>; r end",
+    "lc_effect_entries": G + "def q = [g(e) for e in entries m]; r end",
+    "mc_effect": G + "def q = <<<g(k) => 1 for k in keys m>>>; r end",
+    "mc_effect_values": G + "def q = <<<v => g(v) for v in values m>>>; length(r) end",
+    "sc_error": "<<int(k) for k in keys m>>",
 }
 PRELUDE = ("def fargs(args...) args; "
            "def fkw(a = 'A', b = 'B', c = 'C', dd = 'D', r...) [a, b, c, dd, r...];")
@@ -135,7 +158,7 @@ def build_map(V, elems):
 
 
 STRS_RANK = {"a": 1, "b": 2, "c": 1, "dd": 3, 2: 2, 1.5: 1, "ab": 2,
-             "12": 3}
+             "12": 3, 3: 33, 1: 11, 20: 55, 10: 44}
 
 _F = {}
 
@@ -206,6 +229,8 @@ def explore(chunk):
         base = STRS[:n] if kind in ("s", "m", "call") else MIXED[:n]
         if kind in ("sx", "mx"):
             base = MIXED[:n]
+        if kind in ("si", "mi"):
+            base = INTS[:n]
         strs = [x for x in base if isinstance(x, str)] + EXTRA[:1]
         outcomes = {}
         first = None
@@ -318,7 +343,8 @@ def program_texts(calls, n):
     progs = {}
     for cname, order in (("fwd", lambda x: list(x)),
                          ("rev", lambda x: list(reversed(x)))):
-        for pool, tag in ((STRS[:n], ""), (MIXED[:n], "x")):
+        for pool, tag in ((STRS[:n], ""), (MIXED[:n], "x"),
+                          (INTS[:n], "i")):
             els = order(pool)
             sset = "<< " + ", ".join(literal(e) for e in els) + " >>"
             tel = list(pool[:-1]) + ["e"]
@@ -420,6 +446,7 @@ def main(tier, seed):
     calls = discover_calls()
     paths = [("s", k) for k in PATHS] + [("sx", k) for k in PATHS] + \
             [("m", k) for k in MAP_PATHS] + [("mx", k) for k in MAP_PATHS] + \
+            [("si", k) for k in PATHS] + [("mi", k) for k in MAP_PATHS] + \
             [("call", k) for k in calls]
     agg = core.pmap(explore, [{"paths": c, "n": n, "calls": calls}
                               for c in core.chunked(paths, core.NPROC * 4)])
@@ -433,7 +460,7 @@ def main(tier, seed):
     core.finish(
         PID, tier, seed, agg, t0,
         rule=(f"{len(paths)} programs ({len(PATHS)} set paths and "
-              f"{len(MAP_PATHS)} map paths x {{strings, mixed scalars}}, "
+              f"{len(MAP_PATHS)} map paths x {{strings, mixed scalars, ints}}, "
               f"{len(calls)} library calls discovered at run time) x every "
               f"permutation of the owned hash values of the program's "
               f"strings x every insertion order of {n} elements (thorough: 5 "
